@@ -34,8 +34,16 @@ static void wf_lu_check(int n, SuperMatrix *L, SuperMatrix *U, const int_t *perm
     for (s = 0; s <= Ls->nsuper; ++s) {
         int f = Ls->sup_to_colbeg[s], e = Ls->sup_to_colend[s];
         int nsupc = e - f, sb = Ls->rowind_colbeg[f], se = Ls->rowind_colend[f], nsupr = se - sb;
+#ifdef WF_ANY_SUPERNODE_ORDER
+        /* with several workers supernode numbers follow the order in which supernodes were started:
+           a topological order of the elimination forest, not necessarily the column order */
+        vh_assert(e > f && f >= 0 && e <= n, "supernode is a non-empty column range");
+        { int s2; for (s2 = 0; s2 < s; ++s2) vh_assert(Ls->sup_to_colend[s2] <= f || e <= Ls->sup_to_colbeg[s2], "supernodes are disjoint column ranges"); }
+        next += e - f;
+#else
         vh_assert(f == next && e > f && e <= n, "supernodes are consecutive column ranges in index order");
         next = e;
+#endif
         vh_assert(sb >= 0 && se >= sb, "row-subscript extent well-formed");
         for (q = 0; q < s; ++q) {
             int f2 = Ls->sup_to_colbeg[q];
